@@ -56,6 +56,10 @@ def check(ck: Checker) -> None:
                                  "entries are paired positionally with the paths/stats of another list: hashes are recorded in the state (and metas in the index) under the wrong files")
     ck.floor("C13.savepair", nz, 1, "positional pairings (zip) in index.checkout._create_files")
     _statkeys(ck)
+    from . import round7 as _r7
+
+    _r7.meta_from_info_own_keys(ck, "C13.algo")
+    _r7.state_hit_full_meta(ck, "C13.hit")
 
 
 def prog_func(ck: Checker, mod: str, qual: str) -> Func:
